@@ -82,7 +82,12 @@ def register_package(pkg: str, version: str, schema_classes: List[type], modname
             setattr(mod, attr, cls)
             mname = modname
         eps.append((str(to_ep_name(info.name, tuple(info.version))), f"{mname}:{attr}"))
-    d = SynthDist(pkg, version, {"metador_schema": eps})
+    # besides its schemas the package brings a plugin of a third-party plugin group ("exporter"): package descriptions
+    # must list every group under its own name
+    mod = module(modname)
+    setattr(mod, "SynthExporter", type("SynthExporter", (), {}))
+    d = SynthDist(pkg, version, {"metador_schema": eps,
+                                 "metador_exporter": [(str(to_ep_name(pkg.replace("-", ".") + ".exp", (0, 1, 0))), f"{modname}:SynthExporter")]})
     _DISTS[pkg] = d
     entrypoints.pkg_meta[pkg] = PluginPkgMeta.for_package(pkg)
     for ep in d.entry_points:
